@@ -73,12 +73,11 @@ Proof.
     apply (seg_inv_dml _ _ _ _ _ _ _ _ Hinv Hi' Hn').
     eapply undo_insert_inverts_l; eassumption.
   - (* UPDATE *)
-    apply andb_true_iff in Hcl. destruct Hcl as [Hk Hl]. apply negb_true_iff in Hk.
+    rename Hcl into Hk. apply negb_true_iff in Hk.
     cbn [exec]. destruct (do_update sch st sc v w) as [[r st'] es] eqn:E. cbn [snd log_dml].
     destruct (do_update_inv _ _ _ _ _ _ _ _ Hi Hk E) as [Hi' Hn'].
     apply (seg_inv_dml _ _ _ _ _ _ _ _ Hinv Hi' Hn').
-    eapply undo_update_inverts_l; try eassumption.
-    apply orb_true_iff in Hl. destruct Hl as [Hl|Hl]; [left; apply negb_true_iff; exact Hl | right; exact Hl].
+    eapply undo_update_inverts_l; eassumption.
   - (* BEGIN inside a transaction: an error *)
     cbn [exec snd]. exact Hinv.
   - (* SAVEPOINT n *)
